@@ -1089,7 +1089,7 @@ namespace bluetoe {
                 return false;
             }
 
-            std::uint8_t size() const
+            std::size_t size() const
             {
                 return current_ - begin_;
             }
